@@ -24,6 +24,29 @@ def consumer(chk, prefix):
     batcher.check_consumer(chk, prefix)
 
 
+def rest_of_state(eng, st, given):
+    """every field the real ExecutionState has that `given` does not model, as the kind of object the StateHooks understand (locks as opaque locks,
+    the operations map as the opaque map answered by st.ghost['stored_op'], sets as symbolic sets, flags as opaque events): a contract's symbolic
+    state then covers code that starts reading a field the contract did not need before"""
+    P = eng.program
+    out = dict(given)
+    dflt = {
+        "_operations_lock": lambda: st.alloc("opaque:Lock", {}), "_parent_done_lock": lambda: st.alloc("opaque:Lock", {}), "_replay_status_lock": lambda: st.alloc("opaque:Lock", {}),
+        "_ordered_checkpoint_lock": lambda: st.alloc("opaque:OrderedLockObj", {}), "operations": lambda: st.alloc("opaque:OpsMap", {}),
+        "_checkpointing_failed": lambda: st.alloc("opaque:FailedEvent", {}), "_checkpointing_stopped": lambda: st.alloc("opaque:StoppedEvent", {}),
+        "_checkpoint_queue": lambda: st.alloc("opaque:Queue", {}), "_overflow_queue": lambda: st.alloc("opaque:OverflowQueue", {}),
+        "durable_execution_arn": lambda: fresh("str", "arn"), "_current_checkpoint_token": lambda: fresh("str", "token"), "_service_client": lambda: st.alloc("opaque:DurableServiceClient", {}),
+        # sets / maps this contract has no model for: present (so reading the field is not an artefact), but any USE of them is outside the contract
+        "_batcher_config": lambda: st.alloc("opaque:BatcherConfig", {}), "_parent_done": lambda: st.alloc("opaque:Unmodelled", {}), "_completed_contexts": lambda: st.alloc("opaque:Unmodelled", {}),
+        "_visited_operations": lambda: st.alloc("opaque:Unmodelled", {}), "_parent_to_children": lambda: st.alloc("opaque:Unmodelled", {}),
+        "_replay_status": lambda: fresh("enum", "replay_status", P.cls("state.ReplayStatus")),
+    }
+    for f_, mk in dflt.items():
+        if f_ not in out:
+            out[f_] = mk()
+    return out
+
+
 class StateHooks(Hooks):
     def cm_enter(self, eng, st, cm):
         if isinstance(cm, Ref) and cm.cls == "opaque:Lock":
@@ -66,8 +89,13 @@ class StateHooks(Hooks):
         if n == "OpsMap.update":
             st.emit("ops_update", arg=args[0])
             return [("val", None, st)]
+        if n.startswith("Unmodelled."):
+            raise Unsupported(f"use of a field of ExecutionState that this contract does not model ({n})")
         if n == "OpsMap.get":
             st.emit("ops_get", key=args[0])
+            if "stored_op" not in st.ghost:
+                # the contract did not fix what the map holds: an arbitrary record, or none
+                st.ghost["stored_op"] = mk_opt(z3.Bool(fresh_name("stored_op.absent")), eng.sym_of_type("Operation", "stored_op", st, eng.program.modules["lambda_service"]))
             return [("val", st.ghost["stored_op"], st)]
         if n == "Queue.put":
             st.emit("put", item=args[0])
@@ -138,6 +166,7 @@ def merge_all_pages(chk, prefix="C01"):
     self_ = st.alloc(P.cls("state.ExecutionState"), {"durable_execution_arn": fresh("str", "arn"), "_service_client": st.alloc("opaque:DurableServiceClient", {}),
                                                     "_operations_lock": st.alloc("opaque:Lock", {}), "operations": st.alloc("opaque:OpsMap", {}),
                                                     "_parent_done_lock": st.alloc("opaque:Lock", {}), "_parent_to_children": ptc})
+    st.put(self_, rest_of_state(eng, st, st.get(self_)))
 
     def register_loop(eng_, node, s):
         """`for op in all_operations:` registering parent links - per-element loop: the body is executed once on a generic element against a
@@ -432,6 +461,7 @@ def create_checkpoint(chk, prefix, want):
                                                     "_operations_lock": st.alloc("opaque:Lock", {}), "_replay_status_lock": st.alloc("opaque:Lock", {}), "_ordered_checkpoint_lock": st.alloc("opaque:OrderedLockObj", {}),
                                                     "durable_execution_arn": fresh("str", "arn"), "_current_checkpoint_token": fresh("str", "token"), "_service_client": st.alloc("opaque:ServiceClient", {}),
                                                     "_batcher_config": st.alloc("opaque:BatcherConfig", {})})
+    st.put(self_, rest_of_state(eng, st, st.get(self_)))
     upd0 = eng.sym_of_type("OperationUpdate", "u", st, P.modules["lambda_service"])
     upd = mk_opt(z3.Bool("u.is_none"), upd0)
     is_sync = fresh("bool", "is_sync")
@@ -667,6 +697,9 @@ def raise_if_orphaned_contract(chk, prefix="C10"):
     done = new_zset(st, name="parent_done")
     d0 = st.get(done)["arr"]
     self_ = st.alloc(cls, {"_parent_done": done, "_parent_done_lock": st.alloc("opaque:Lock", {})})
+    eng.container_models.setdefault("zset", SetModel())
+    eng.container_models.setdefault("zmapset", SetModel())
+    st.put(self_, rest_of_state(eng, st, st.get(self_)))
     oid = fresh("str", "operation_id")
     for k, v, s in eng.run(cls.find_method("raise_if_orphaned"), [self_, oid], st=st):
         chk.paths += 1
